@@ -21,4 +21,9 @@ CHECKS: dict[str, dict] = {
         "text": "Decides the structural clauses every region CFG needs: the DFS marks the start block, tests-and-marks each successor individually (no duplicate enqueue for multi-edges), re-pushes a block before its successors and returns only entries popped as visited; dominance predecessor sets are restricted to reachable blocks; entry={entry}, others=all blocks; the change flag is monotone within a sweep; the meet is {b} | intersection over predecessors; strict dominance excludes identity. It does not compare against a path-based reference on concrete graphs.",
         "note": "Trusted: Python set/list semantics; the algorithm shape (iterative dominator sets, explicit-stack DFS) — a different algorithm stops the check with ANALYSIS-ERROR.",
     },
+    "C03": {
+        "technique": _T + 'field-coverage and must-pass-through on the CFG, typed-pairing dominance, sibling lookup agreement',
+        "text": "Decides necessary structural clauses for every pair of IR fragments: each semantic field named by the property (name, operands, result types, attributes, properties, successors, regions; block argument types, ops; blocks) is compared by a rejecting, discriminating test on every path to an accepting return; two values are paired in the correspondence only after their types were compared; lookups that can reject are total (identity fallback or membership guard), which is what reflexivity at top level needs; blocks and values are registered before references to them are compared; CSE's key hashes a subset of what it compares and never keys terminators. It does not decide completeness of the relation on arbitrary isomorphic pairs.",
+        "note": 'Trusted: the list of semantic fields is taken from the property statement; bookkeeping fields (parent links, uses, location) are exempt.',
+    },
 }
